@@ -149,7 +149,12 @@ def generate(seed):
 
     # styles: cellXfs referencing number formats (builtin + custom) and fonts
     fonts = [('Calibri', 11, False), ('Arial', 10, True), ('MS Gothic', 9, False), ('A&B "Font"', 14, False)]
-    custom = {164: '0.000', 165: '"a&b" 0', 166: 'yyyy\\-mm\\-dd', 167: '#,##0.00 "<€>"'}
+    codes = ['0.000', '"a&b" 0', 'yyyy\\-mm\\-dd', '#,##0.00 "<€>"']
+    # ids of custom formats are whatever the producer chose: contiguous from 164, or with gaps (after formats were deleted)
+    ids = [164, 165, 166, 167] if rng.random() < 0.6 else rng.sample(range(170, 186), 4)
+    if ids[0] != 164:
+        features.add('numfmt-ids-with-gaps')
+    custom = dict(zip(ids, codes))
     # Excel in some locales redefines built-in ids (accounting / currency formats) in <numFmts>; the file's code wins
     if rng.random() < 0.5:
         custom[44] = '_ "¥"* #,##0.00_ ;_ "¥"* \\-#,##0.00_ ;_ "¥"* "-"??_ ;_ @_ '
@@ -159,10 +164,14 @@ def generate(seed):
         features.add('numfmt-redefines-builtin-id')
     # id 14 is left out: its code is locale dependent (ECMA lists mm-dd-yy, Excel and this library show m/d/yyyy)
     builtin = {0: 'General', 1: '0', 2: '0.00', 9: '0%', 10: '0.00%', 49: '@', 4: '#,##0.00'}
+    # the Normal cell style may say that its own number format / font do not apply; a cell xf that applies its own is not affected
+    style_flags = rng.choice(['', '', ' applyNumberFormat="0" applyFont="0" applyAlignment="0" applyProtection="0"', ' applyNumberFormat="0"'])
+    if style_flags:
+        features.add('cellstyle-xf-apply-flags')
     xfs = [(0, 0, None)]
     for _ in range(rng.randint(1, 8)):
         nid = rng.choice(list(custom) + list(builtin))
-        xfs.append((nid, rng.randrange(len(fonts)), rng.choice([None, None, '1'])))
+        xfs.append((nid, rng.randrange(len(fonts)), '1' if style_flags else rng.choice([None, None, '1'])))
     sheets = []
     dnames = []
     all_tables = []
@@ -306,8 +315,17 @@ def generate(seed):
                 i = shared(cn)
                 xml_rows.setdefault(tr, {})[tc + j] = '<c r="%s%d" t="s"><v>%d</v></c>' % (col(tc + j), tr, i)
                 cells[(tc + j, tr)] = {'k': 'text', 'v': cn, 'f': ''}
-            tables.append(('Tbl_%d_%d' % (si + 1, seed % 1000), '%s%d:%s%d' % (col(tc), tr, col(tc + ncols - 1), tr + th), colnames))
+            tables.append(('Tbl_%d_%d' % (si + 1, seed % 1000), '%s%d:%s%d' % (col(tc), tr, col(tc + ncols - 1), tr + th), colnames, True))
             features.add('table')
+        if rng.random() < 0.2:
+            # a table without header row and with a single record
+            ncols = rng.randint(1, 3)
+            tc, tr = 50, rng.randint(55, 58)
+            for j in range(ncols):
+                xml_rows.setdefault(tr, {})[tc + j] = '<c r="%s%d"><v>%d</v></c>' % (col(tc + j), tr, j + 1)
+                cells[(tc + j, tr)] = {'k': 'number', 'v': str(j + 1), 'f': ''}
+            tables.append(('One_%d_%d' % (si + 1, seed % 1000), '%s%d:%s%d' % (col(tc), tr, col(tc + ncols - 1), tr), ['P%d' % (j + 1) for j in range(ncols)], False))
+            features.add('table-one-row-no-header')
         rows_xml = []
         for r in sorted(xml_rows):
             cs = xml_rows[r]
@@ -333,6 +351,11 @@ def generate(seed):
                 loc = "'%s'!A%d" % (name.replace("'", "''"), j + 1)
                 hl.append('<hyperlink ref="%s" location="%s" display="d"/>' % (ref, attr(loc)))
                 links.append((ref, loc, True))
+        if rng.random() < 0.3 and 35 not in xml_rows:
+            # a hyperlink on an empty cell: no <c>, not even a <row> for it in sheetData
+            hl.append('<hyperlink ref="B35" location="%s" display="empty"/>' % attr("'%s'!C3" % name.replace("'", "''")))
+            links.append(('B35', "'%s'!C3" % name.replace("'", "''"), True))
+            features.add('hyperlink-on-cell-without-row')
         for j in range(rng.randint(0, 2)):
             c, r = 30 + 3 * j, 40
             m = '%s%d:%s%d' % (col(c), r, col(c + 1), r + 1)
@@ -362,7 +385,7 @@ def generate(seed):
         if pretty:
             # line breaks and indentation between the elements of sheetData (never inside <v>, <f>, <t> or <is>)
             ws = re.sub(r'>(?=<(?:c |/c>|row |/row>|f[ >]|v>|is>|/sheetData>))', lambda m_: '>\n' + ' ' * rng.choice([2, 4, 8]), ws)
-        sheets.append({'name': name, 'xml': ws, 'rels': rels, 'cells': {col(c) + str(r): v for (c, r), v in cells.items() if v}, 'links': links, 'merges': merges, 'tables': tables})
+        sheets.append({'name': name, 'xml': ws, 'rels': rels, 'cells': {col(c) + str(r): v for (c, r), v in cells.items() if v}, 'links': links, 'merges': merges, 'tables': [t[:3] for t in tables]})
         if rng.random() < 0.5:
             q = "'%s'" % name.replace("'", "''") if not name.isalnum() or name == 'R1' else name
             dnames.append(('Name_%d' % si, '%s!$A$1:$B$%d' % (q, si + 2), None))
@@ -391,9 +414,9 @@ def generate(seed):
         z.writestr('xl/worksheets/sheet%d.xml' % (i + 1), s['xml'])
         if s['rels']:
             z.writestr('xl/worksheets/_rels/sheet%d.xml.rels' % (i + 1), '<?xml version="1.0" encoding="UTF-8" standalone="yes"?>\n<Relationships xmlns="http://schemas.openxmlformats.org/package/2006/relationships">%s</Relationships>' % ''.join(s['rels']))
-    for i, (tname, tref, tcols) in enumerate(all_tables):
-        z.writestr('xl/tables/table%d.xml' % (i + 1), '<?xml version="1.0" encoding="UTF-8" standalone="yes"?>\n<table xmlns="%s" id="%d" name="%s" displayName="%s" ref="%s" totalsRowShown="0"><autoFilter ref="%s"/><tableColumns count="%d">%s</tableColumns><tableStyleInfo name="TableStyleMedium2" showFirstColumn="0" showLastColumn="0" showRowStripes="1" showColumnStripes="0"/></table>'
-                   % (NS, i + 1, tname, tname, tref, tref, len(tcols), ''.join('<tableColumn id="%d" name="%s"/>' % (j + 1, attr(cn)) for j, cn in enumerate(tcols))))
+    for i, (tname, tref, tcols, header) in enumerate(all_tables):
+        z.writestr('xl/tables/table%d.xml' % (i + 1), '<?xml version="1.0" encoding="UTF-8" standalone="yes"?>\n<table xmlns="%s" id="%d" name="%s" displayName="%s" ref="%s"%s totalsRowShown="0">%s<tableColumns count="%d">%s</tableColumns><tableStyleInfo name="TableStyleMedium2" showFirstColumn="0" showLastColumn="0" showRowStripes="1" showColumnStripes="0"/></table>'
+                   % (NS, i + 1, tname, tname, tref, '' if header else ' headerRowCount="0"', ('<autoFilter ref="%s"/>' % tref) if header else '', len(tcols), ''.join('<tableColumn id="%d" name="%s"/>' % (j + 1, attr(cn)) for j, cn in enumerate(tcols))))
     wb.append('</sheets>')
     if dnames:
         wb.append('<definedNames>%s</definedNames>' % ''.join('<definedName name="%s"%s>%s</definedName>' % (attr(n), ' localSheetId="%d"' % l if l is not None else '', escape(a)) for n, a, l in dnames))
@@ -406,7 +429,7 @@ def generate(seed):
     st = ['<?xml version="1.0" encoding="UTF-8" standalone="yes"?>\n<styleSheet xmlns="%s"><numFmts count="%d">%s</numFmts>' % (NS, len(custom), ''.join('<numFmt numFmtId="%d" formatCode="%s"/>' % (k, attr(v)) for k, v in custom.items()))]
     st.append('<fonts count="%d">%s</fonts>' % (len(fonts), ''.join('<font>%s<sz val="%d"/><name val="%s"/><family val="2"/></font>' % ('<b/>' if b else '', sz, attr(nm)) for nm, sz, b in fonts)))
     st.append('<fills count="2"><fill><patternFill patternType="none"/></fill><fill><patternFill patternType="gray125"/></fill></fills><borders count="1"><border><left/><right/><top/><bottom/><diagonal/></border></borders>')
-    st.append('<cellStyleXfs count="1"><xf numFmtId="0" fontId="0" fillId="0" borderId="0"/></cellStyleXfs>')
+    st.append('<cellStyleXfs count="1"><xf numFmtId="0" fontId="0" fillId="0" borderId="0"%s/></cellStyleXfs>' % style_flags)
     st.append('<cellXfs count="%d">%s</cellXfs>' % (len(xfs), ''.join('<xf numFmtId="%d" fontId="%d" fillId="0" borderId="0" xfId="0"%s/>' % (nid, fid, ' applyNumberFormat="1" applyFont="1"' if ap else '') for nid, fid, ap in xfs)))
     st.append('<cellStyles count="1"><cellStyle name="Normal" xfId="0" builtinId="0"/></cellStyles></styleSheet>')
     z.writestr('xl/styles.xml', ''.join(st))
